@@ -749,9 +749,52 @@ def padding_and_order(rec):
                      '3 time points with different simulated variances and different missing counts; distinct by (filter, variant)', exhaustive=True)
 
 
+def composed_parts(rec):
+    """[bounded] a composed filter of real sub-filters of any classes and configurations (also neighbours of the same class that differ only in
+    their configuration, e.g. the number of kernels) scores the sum of its parts on their own time points; the sensitivities are the parts'
+    sensitivities side by side along the time axis"""
+    import chi as real
+    rng0 = np.random.default_rng(100 + rec.seed)
+    kinds = [('GaussianFilter', {}), ('LogNormalFilter', {}), ('GaussianKDEFilter', {}), ('LogNormalKDEFilter', {}),
+             ('GaussianMixtureFilter', {'n_kernels': 2}), ('GaussianMixtureFilter', {'n_kernels': 3}), ('GaussianMixtureFilter', {'n_kernels': 4})]
+    cases = [(a_, b_) for a_ in range(len(kinds)) for b_ in range(len(kinds))] + [(4, 5, 4), (5, 5, 6), (0, 0, 1), (6, 4, 5)]
+
+    def one(case):
+        rng = np.random.default_rng(7 * sum((k_ + 1) * (j_ + 1) for j_, k_ in enumerate(case)) + rec.seed)
+        n_t = [2, 1, 2][:len(case)]
+        # the same number of measured individuals and observables in every part (nothing but class and configuration tells the parts apart)
+        datas = [rng.uniform(0.6, 2.4, (3, 2, nt_)) for nt_ in n_t]
+        subs = [getattr(real, kinds[k_][0])(d_, **kinds[k_][1]) for k_, d_ in zip(case, datas)]
+        twins = [getattr(real, kinds[k_][0])(d_.copy(), **kinds[k_][1]) for k_, d_ in zip(case, datas)]
+        label = ' + '.join('%s%s' % (kinds[k_][0], kinds[k_][1] or '') for k_ in case)
+        sim = rng.uniform(0.6, 2.4, (12, 2, sum(n_t)))
+        try:
+            comp = real.ComposedPopulationFilter(subs)
+            v = comp.compute_log_likelihood(sim)
+            s1, g1 = comp.compute_sensitivities(sim)
+        except Exception as ex:
+            return 'composed filter [%s]: construction / evaluation raises %r' % (label, ex)
+        want, grads, off = 0.0, [], 0
+        for tw, nt_ in zip(twins, n_t):
+            s_, g_ = tw.compute_sensitivities(sim[:, :, off:off + nt_])
+            want += float(tw.compute_log_likelihood(sim[:, :, off:off + nt_]))
+            grads.append(np.asarray(g_, dtype=float))
+            off += nt_
+        wg = np.concatenate(grads, axis=2)
+        if not (np.isclose(v, want, rtol=1e-10, atol=1e-10) and np.isclose(s1, want, rtol=1e-10, atol=1e-10)):
+            return 'composed filter [%s]: value %r / %r, the sum of its parts on their own time points is %r' % (label, float(v), float(s1), want)
+        if np.shape(g1) != wg.shape or not np.allclose(g1, wg, rtol=1e-9, atol=1e-12):
+            return 'composed filter [%s]: the sensitivities are not the parts\' sensitivities side by side (shapes %s / %s)' % (label, np.shape(g1), wg.shape)
+        return None
+    rec.native_check('composed/sum-of-parts', ['chi._population_filters.ComposedPopulationFilter.__init__', 'chi._population_filters.ComposedPopulationFilter.compute_log_likelihood',
+                                               'chi._population_filters.ComposedPopulationFilter.compute_sensitivities'], cases, one,
+                     'ordered pairs of 7 filter configurations (5 classes, mixture filters with 2 / 3 / 4 kernels) and four triples; 3 measured and 12 simulated individuals, 2 observables; '
+                     'distinct by composition', exhaustive=True)
+
+
 def _more_tasks():
     out = [('mixture:K=2', lambda rec: mixture(rec, 2)), ('mixture:K=3', lambda rec: mixture(rec, 3) if rec.tier == 'thorough' else None),
-           ('plain-sort', plain_sort), ('ieee-range', ieee_range), ('padding-order', padding_and_order)]
+           ('plain-sort', plain_sort), ('ieee-range', ieee_range), ('padding-order', padding_and_order), ('composed-parts', composed_parts)]
     for blocks in [(1, 1), (2, 1), (1, 2), (1, 1, 1), (2, 2), (1, 2, 1), (3, 1), (1, 3)]:       # (a sub-filter of three time points: rotations are not their own inverse)
         def run(rec, blocks=blocks):
             if sum(blocks) == 4 and rec.tier == 'quick' and blocks not in ((1, 2, 1), (3, 1)):
